@@ -329,7 +329,7 @@ _STEP = 'proof { sv_total_order(); lemma_flat_step(ents__@, nd__, %s); nd__ = nd
 _BRK = ('proof { sv_total_order(); let b__ = ri__ as int - 1; '
         'assert forall|j: int| b__ <= j < ents__@.len() implies !first_ok(%(P)s, (#[trigger] ents__@[j]).key@[0]) by { lemma_first_cols_ascend(ents__@, b__, j); } '
         'lemma_tail_outside(ents__@, b__, %(P)s); nd__ = ents__@.len() as int; assert(ents__@.take(nd__) =~= ents__@); }') % dict(P=_P)
-_NONE = 'proof { sv_total_order(); lemma_none_inside(%s, %s); }' % (_E, _P)
+_NONE = 'proof { sv_total_order(); lemma_none_inside(%s, opt_norm_spec(start), opt_norm_spec(end), inclusive_start, inclusive_end); }' % _E   # parameters only: valid wherever the guard stands
 
 
 class _Nth:
